@@ -61,6 +61,9 @@ inductive Val where
   | rgb (r g b : Bytes) (a : Option Bytes)
   | obj (fs : Fields)
   | arr (vs : Vals)
+  /-- object that continues as a bare value list: `{ k = v …  s₁ s₂ … }` (at least one field and
+  one trailing scalar) -/
+  | mixed (fs : Fields) (tail : List Sc)
 /-- `key = value` fields, each preceded by `ghosts` empty `{}` objects -/
 inductive Fields where
   | nil
@@ -69,6 +72,10 @@ inductive Vals where
   | nil
   | cons (v : Val) (rest : Vals)
 end
+
+def Fields.nonEmpty : Fields → Bool
+  | .nil => false
+  | .cons _ _ _ _ => true
 
 def ghostBytes : Nat → Bytes
   | 0 => []
@@ -83,6 +90,7 @@ def Val.encode : Val → Bytes
       le16 L.rgb ++ le16 L.open_ ++ le16 L.u32 ++ r ++ le16 L.u32 ++ g ++ le16 L.u32 ++ b ++ le16 L.u32 ++ a ++ le16 L.close
   | .obj fs => le16 L.open_ ++ fs.encode ++ le16 L.close
   | .arr vs => le16 L.open_ ++ vs.encode ++ le16 L.close
+  | .mixed fs tail => le16 L.open_ ++ fs.encode ++ (tail.flatMap Sc.encode) ++ le16 L.close
 def Fields.encode : Fields → Bytes
   | .nil => []
   | .cons g k v rest => ghostBytes g ++ k.encode ++ le16 L.equal ++ v.encode ++ rest.encode
@@ -109,6 +117,9 @@ def Val.tape (base : Nat) (asValue : Bool) : Val → Tape
   | .arr vs =>
     let inner := vs.tape (base + 1)
     .array (base + 1 + inner.length) :: inner ++ [.end_ base]
+  | .mixed fs tail =>
+    let inner := fs.tape (base + 1) ++ BTok.mixed :: tail.map Sc.tok
+    .object (base + 1 + inner.length) :: inner ++ [.end_ base]
 /-- ghost objects are dropped -/
 def Fields.tape (base : Nat) : Fields → Tape
   | .nil => []
@@ -128,6 +139,7 @@ def Val.wf : Val → Bool
   | .rgb r g b a => r.length == 4 && g.length == 4 && b.length == 4 && (match a with | none => true | some a => a.length == 4)
   | .obj fs => fs.wf
   | .arr vs => vs.wf
+  | .mixed fs tail => fs.wf && fs.nonEmpty && !tail.isEmpty && tail.all Sc.wf
 def Fields.wf : Fields → Bool
   | .nil => true
   | .cons _ k v rest => k.wf && v.wf && rest.wf
